@@ -1050,6 +1050,19 @@ fn corpus(p: Prop) -> Vec<(SCase, LenStyle)> {
                 },
             }];
             v.push((c6, LenStyle::Generic));
+            // an EXACT cost tie at an expanded vertex (plain Dijkstra): the zero-length connector costs the
+            // 1e-10 floor, which a label of 3,000,000 absorbs, so the junction is reached with the same cost
+            // by the long edge and by the other long edge + connector.  Only a strictly better label may
+            // replace the junction's tree entry: re-labelling it on the tie would leave the outgoing edge's
+            // entry (written for the permitted turn) behind the connector, and the route would take the
+            // restricted turn (connector, out).  Both numberings of the tied vertices (queue order).
+            for (j, k) in [(1usize, 2usize), (2, 1)] {
+                let mut t = base(vec![(0, j, 3_000_000.0), (0, k, 3_000_000.0), (k, j, 0.0), (j, 3, 1_000.0)], 4);
+                t.coords = vec![(-105.0, 39.7); 4];
+                t.target = Some(3);
+                t.frontier = vec![Fr::TurnRestriction(vec![(2, 3)])];
+                v.push((t, LenStyle::Generic));
+            }
         }
         Prop::C10 => {
             let mut c = base(vec![(0, 1, 1.0), (1, 2, 1.0), (2, 3, 1.0)], 4);
